@@ -225,12 +225,14 @@ func (e *SpecEnv) eval(x *SExpr) *Val {
 		for _, b := range x.Binders {
 			t := e.resolveType(b.Type)
 			ls := layoutTE(t, e.te)
-			if len(ls) != 1 {
-				e.fail(x, "quantified variable %s of composite type %s", b.Name, t)
+			bv := &Val{T: t}
+			base := freshName("q." + b.Name)
+			for _, l := range ls {
+				bt := Bound(base+leafSuffix(l.Path), l.Sort)
+				bs = append(bs, bt)
+				bv.L = append(bv.L, bt)
 			}
-			bt := Bound(freshName("q."+b.Name), ls[0].Sort)
-			bs = append(bs, bt)
-			vars[b.Name] = &Val{T: t, L: []*Term{bt}}
+			vars[b.Name] = bv
 		}
 		body := e.with(vars).evalBool(x.Args[0])
 		if x.Op == "forall" {
@@ -298,6 +300,14 @@ func (e *SpecEnv) ident(x *SExpr) *Val {
 	}
 	if e.fr != nil {
 		fr := e.fr
+		// captured variables of a closure: the name denotes the variable's current content
+		for fv, pv := range fr.free {
+			if fv.Name() == name {
+				st := e.st
+				a := e.run.addrOf(pv, e.te)
+				return e.run.load(st, a, derefType(fv.Type()), e.te)
+			}
+		}
 		// entry values of parameters in pre/post mode
 		if e.mode == "pre" || e.mode == "post" {
 			if v, ok := fr.params[name]; ok {
@@ -713,6 +723,26 @@ func (e *SpecEnv) call(x *SExpr) *Val {
 			}
 		}
 	}
+	// pure interface method: x.M(args)
+	if callee.Kind == "sel" {
+		recv := e.evalSafe(callee.Args[0])
+		if recv != nil && recv.T != nil && isIfaceType(e.te.apply(recv.T)) {
+			if spec := e.run.v.methodSpecOf(e.te.apply(recv.T), callee.Name); spec != nil && spec.Has("pure") {
+				it := types.Unalias(e.te.apply(recv.T)).Underlying().(*types.Interface)
+				for i := 0; i < it.NumMethods(); i++ {
+					if m := it.Method(i); m.Name() == callee.Name {
+						sig := m.Type().(*types.Signature)
+						avs := append([]*Val{recv}, e.evalArgs(args)...)
+						var rt types.Type = sig.Results()
+						if sig.Results().Len() == 1 {
+							rt = sig.Results().At(0).Type()
+						}
+						return e.run.v.pureResult(spec, spec.Pkg, nil, sig, avs, e.te, rt)
+					}
+				}
+			}
+		}
+	}
 	// call of a function-typed value: pure application
 	fv := e.eval(callee)
 	if len(fv.L) == 1 && fv.L[0].Sort == SInt && fv.T != nil {
@@ -723,6 +753,19 @@ func (e *SpecEnv) call(x *SExpr) *Val {
 	}
 	e.fail(x, "cannot call %s", callee)
 	return nil
+}
+
+func (e *SpecEnv) evalSafe(x *SExpr) (v *Val) {
+	defer func() {
+		if r := recover(); r != nil {
+			if _, ok := r.(specErr); ok {
+				v = nil
+				return
+			}
+			panic(r)
+		}
+	}()
+	return e.eval(x)
 }
 
 func (e *SpecEnv) evalArgs(args []*SExpr) []*Val {
